@@ -128,7 +128,7 @@ def run(chk):
         n_impl, n_model = len(traces), 0
         g = graphs.get(name)
         if g is not None:
-            for sched in _graph_schedules(g, chk.pick(300, 3000), 40):
+            for sched in _graph_schedules(g, chk.pick(150, 3000), 40):
                 tr = drv.run_schedule(runs, instof, limit, sched, filter_enabled=True)
                 if tr:
                     traces.append(tr)
